@@ -86,7 +86,7 @@ func init() {
 			}
 			for _, typ := range []string{"config", "config|noreplace", "config|missingok", ""} {
 				for _, tag := range tags {
-					for _, src := range []string{"etc/conf.d/*.conf", "etc/conf.d", "etc/con*/*.conf"} {
+					for _, src := range []string{"etc/conf.d/*.conf", "etc/conf.d", "etc/con*/*.conf", "mixed/*.conf", "mixed", "mixed/[a-z]*.conf"} {
 						e := model.Entry{Src: src, Dst: "/etc/c08", Type: typ, Packager: tag}
 						if !yield(C08Case{Part: "glob", List: []model.Entry{e, c08Entry("", "", 2, false)}}) {
 							return
